@@ -294,6 +294,8 @@ func parseEntryDirective(e *HarnessEntry, s string) error {
 			e.MapOrder = v
 		case "gosync":
 			e.GoSync = true
+		case "dpor":
+			e.DPOR = true
 		case "allowdeadlock":
 			e.AllowDeadlock = true
 		case "maxruns":
@@ -449,6 +451,7 @@ func runCheck(prop, tier string, nWorkers int, solverName, only, repo string, bu
 		}
 		d.active = 0
 		d.stop = false
+		d.dporNodes = nil
 		// fresh term tables and solver processes per entry (encoding options differ per entry)
 		wmu.Lock()
 		workers = nil
@@ -624,6 +627,9 @@ func encodeTrace(ds []Decision) []string {
 	out := make([]string, len(ds))
 	for i, d := range ds {
 		out[i] = fmt.Sprintf("%c:%d:%d", d.K, d.C, d.N)
+		if d.G {
+			out[i] += ":g"
+		}
 	}
 	return out
 }
@@ -632,12 +638,12 @@ func decodeTrace(ss []string) []Decision {
 	var out []Decision
 	for _, s := range ss {
 		p := strings.Split(s, ":")
-		if len(p) != 3 || len(p[0]) != 1 {
+		if (len(p) != 3 && len(p) != 4) || len(p[0]) != 1 {
 			continue
 		}
 		c, _ := strconv.Atoi(p[1])
 		n, _ := strconv.Atoi(p[2])
-		out = append(out, Decision{K: p[0][0], C: c, N: n})
+		out = append(out, Decision{K: p[0][0], C: c, N: n, G: len(p) == 4 && p[3] == "g"})
 	}
 	return out
 }
